@@ -51,7 +51,7 @@ TEMPLATES = {
 
 def budget(tier):
     if tier == "quick":
-        return {"runs": 12000, "chunk": 100, "wall_cap": 300.0, "det_sample": 8}
+        return {"runs": 100000, "chunk": 400, "wall_cap": 300.0, "det_sample": 8}
     return {"runs": 600000, "chunk": 400, "wall_cap": 3300.0, "det_sample": 40}
 
 
